@@ -28,6 +28,7 @@ Mod  == 1..N
 None == 0
 
 VARIABLES deps,      \* the dependency graph
+          tr,        \* its transitive closure, tr[m] = Trans[m] (derived: TrConsistent)
           last,      \* outcome of the last AddDependency call (history, not in VIEW)
           phase,     \* "build" | "init" | "done"
           T,         \* targets of InitModuleServices
@@ -36,12 +37,12 @@ VARIABLES deps,      \* the dependency graph
           placed,    \* orderedDeps: dependencies of cur already placed in the result
           order      \* sequence of initialised modules (initMap = SeqSet(order))
 
-vars == <<deps, last, phase, T, rem, cur, placed, order>>
-view == <<deps, phase, T, rem, cur, placed, order>>
+vars == <<deps, tr, last, phase, T, rem, cur, placed, order>>
+view == <<deps, tr, phase, T, rem, cur, placed, order>>
 
 inited == SeqSet(order)
 
-Init == /\ deps = {} /\ last = [a |-> None, B |-> {}, ok |-> TRUE]
+Init == /\ deps = {} /\ tr = [m \in Mod |-> {}] /\ last = [a |-> None, B |-> {}, ok |-> TRUE]
         /\ phase = "build" /\ T = {} /\ rem = {} /\ cur = None /\ placed = {} /\ order = <<>>
 
 (* ---- build phase ------------------------------------------------------ *)
@@ -49,6 +50,7 @@ AddDependency(a, B) ==
     /\ phase = "build"
     /\ LET ok == \A b \in B : ~ClosesCycle(deps, a, b)
        IN  /\ deps' = IF ok THEN deps \cup {<<a, b>> : b \in B} ELSE deps
+           /\ tr' = TransFn(deps', Mod)
            /\ last' = [a |-> a, B |-> B, ok |-> ok]
     /\ UNCHANGED <<phase, T, rem, cur, placed, order>>
 
@@ -56,35 +58,35 @@ AddDependency(a, B) ==
 StartInit(targets) ==
     /\ WithInit /\ phase = "build"
     /\ phase' = "init" /\ T' = targets /\ rem' = targets
-    /\ UNCHANGED <<deps, last, cur, placed, order>>
+    /\ UNCHANGED <<deps, tr, last, cur, placed, order>>
 
 PickTarget(t) ==
     /\ phase = "init" /\ cur = None /\ t \in rem
     /\ cur' = t /\ rem' = rem \ {t} /\ placed' = {}
-    /\ UNCHANGED <<deps, last, phase, T, order>>
+    /\ UNCHANGED <<deps, tr, last, phase, T, order>>
 
 InitIfNew(x) == order' = IF x \in inited THEN order ELSE Append(order, x)
 
 PlaceDep(x) ==
     /\ phase = "init" /\ cur # None
-    /\ x \in TransOf(deps, cur) \ placed
+    /\ x \in tr[cur] \ placed
     /\ Direct(deps, x) \subseteq placed
     /\ placed' = placed \cup {x}
     /\ InitIfNew(x)
-    /\ UNCHANGED <<deps, last, phase, T, rem, cur>>
+    /\ UNCHANGED <<deps, tr, last, phase, T, rem, cur>>
 
 FinishTarget ==
     /\ phase = "init" /\ cur # None
-    /\ placed = TransOf(deps, cur)
+    /\ placed = tr[cur]
     /\ InitIfNew(cur)
     /\ cur' = None /\ placed' = {}
     /\ phase' = IF rem = {} THEN "done" ELSE "init"
-    /\ UNCHANGED <<deps, last, T, rem>>
+    /\ UNCHANGED <<deps, tr, last, T, rem>>
 
 InitNothing ==   \* InitModuleServices() without targets
     /\ phase = "init" /\ cur = None /\ rem = {} /\ T = {}
     /\ phase' = "done"
-    /\ UNCHANGED <<deps, last, T, rem, cur, placed, order>>
+    /\ UNCHANGED <<deps, tr, last, T, rem, cur, placed, order>>
 
 Next == \/ \E a \in Mod : \E B \in SUBSET Mod : B # {} /\ Cardinality(B) <= MaxB /\ AddDependency(a, B)
         \/ \E targets \in SUBSET Mod : StartInit(targets)
@@ -102,6 +104,7 @@ TypeOK == /\ deps \subseteq Mod \X Mod
           /\ placed \subseteq Mod
 
 GraphAcyclic == Acyclic(deps, Mod)
+TrConsistent == phase = "build" => tr = TransFn(deps, Mod)
 
 (* Adding a dependency that would close a cycle is rejected and changes nothing; every other  *)
 (* addition is accepted.  An action property: TLC evaluates it on every AddDependency step,   *)
@@ -118,20 +121,20 @@ CycleRejected == [][CycleRejectedStep]_vars
 
 (* Every module is initialised at most once, only if needed, after all it depends on ...      *)
 InitOrder == /\ InitOnce(order)
-             /\ InitOnlyNeeded(deps, T, Mod, order)
-             /\ InitAfterDeps(deps, Mod, order)
+             /\ InitOnlyNeeded(tr, T, Mod, order)
+             /\ InitAfterDeps(tr, Mod, order)
 (* ... and when InitModuleServices returns, exactly the needed modules are initialised.       *)
-InitExactlyNeeded == phase = "done" => AdmissibleInit(deps, T, Mod, order)
+InitExactlyNeeded == phase = "done" => AdmissibleInit(tr, T, Mod, order)
 
 (* the algorithm cannot get stuck: orderedDeps always finds a module to place *)
-InitProgress == (phase = "init" /\ cur # None /\ placed # TransOf(deps, cur))
-                   => \E x \in TransOf(deps, cur) \ placed : Direct(deps, x) \subseteq placed
+InitProgress == (phase = "init" /\ cur # None /\ placed # tr[cur])
+                   => \E x \in tr[cur] \ placed : Direct(deps, x) \subseteq placed
 
 (* Projection lemma used by the trace validator (init functions may be nil, only the modules  *)
 (* H with an init function are observed): an order over Needed(T) \cap H is the projection of *)
 (* an admissible full order iff it is admissible on H.  Checked when a full order is reached. *)
 Project(s, H) == SelectSeq(s, LAMBDA x : x \in H)
-ProjectionLemma == phase = "done" => \A H \in SUBSET Mod : AdmissibleInit(deps, T, H, Project(order, H))
+ProjectionLemma == phase = "done" => \A H \in SUBSET Mod : AdmissibleInit(tr, T, H, Project(order, H))
 
 (* ---- case emitter (gen direction): one line per DAG --------------------------------------- *)
 EdgeSeq(E) == LET RECURSIVE F(_)
@@ -143,5 +146,5 @@ Emit == (EmitCases /\ phase = "build") =>
           PrintT(ToJson([n       |-> N,
                          edges   |-> EdgeSeq(deps),
                          closing |-> EdgeSeq({e \in Mod \X Mod : ClosesCycle(deps, e[1], e[2])}),
-                         trans   |-> [m \in Mod |-> TransOf(deps, m)]]))
+                         trans   |-> tr]))
 =============================================================================
